@@ -51,6 +51,12 @@ def cases(tier, seed, focus):
     yield {"ode": MISSING_PROBE, "npts": 2, "missing": MISSING_REQUESTS[0], "missing_extra": MISSING_REQUESTS[1:], "only_fn": "missing_values", "tags": ["C03:value-mismatch:missing_values", "C03"]}
     for e in PROBES:
         yield {"ode": probe_text(e), "npts": 2, "tags": ["C03"]}
+    # operator-precedence probes (the JAX printer is a subclass of the NumPy printer): several expressions per model, one intermediate each
+    from oracles.c01 import _precedence_probes
+    pp = _precedence_probes()
+    for lo in range(0, len(pp), 8):
+        body = "".join(f"p{j} = {e}\n" for j, e in enumerate(pp[lo:lo + 8]))
+        yield {"ode": f"parameters(a=2.0, b=0.25)\nstates(x=1.5, y=2.0)\n{body}dx_dt = p0 - a*x\ndy_dt = b - y*abs(x)\n", "npts": 2, "tags": ["C03"]}
     for i in range(n):
         k = seed * 100003 + i
         force = list(mg.feature_cycle(k)) + (["And3"] if i % 4 == 0 else ["Or3"] if i % 4 == 2 else [])
